@@ -224,6 +224,27 @@ def operator_table(mod, fn: ast.FunctionDef):
             for g in ast.walk(fn):
                 if isinstance(g, ast.If) and bound and norm(g.test) in (f"{bound} is None", f"({bound} := {norm(n)}) is None") and classify_body(g.body) == "raise":
                     default = "raise"
+        if tbl is None and isinstance(n, ast.Call) and norm(n.func) == "next" and n.args and isinstance(n.args[0], ast.GeneratorExp) and len(n.args[0].generators) == 1:
+            # next((v for k, v in TABLE.items() if isinstance(op, k)), None)
+            g = n.args[0].generators[0]
+            src = g.iter.func.value if isinstance(g.iter, ast.Call) and isinstance(g.iter.func, ast.Attribute) and g.iter.func.attr == "items" else g.iter
+            if isinstance(src, ast.Name) and isinstance(g.target, ast.Tuple) and len(g.target.elts) == 2 and len(g.ifs) == 1 \
+                    and isinstance(g.ifs[0], ast.Call) and norm(g.ifs[0].func) == "isinstance" and norm(g.ifs[0].args[1]) == norm(g.target.elts[0]) \
+                    and norm(n.args[0].elt) == norm(g.target.elts[1]):
+                tbl = src.id
+                if len(n.args) == 1:
+                    default = "raise"  # StopIteration
+                else:
+                    bound = None
+                    for w in ast.walk(fn):
+                        if isinstance(w, ast.Assign) and w.value is n and isinstance(w.targets[0], ast.Name):
+                            bound = w.targets[0].id
+                        if isinstance(w, ast.NamedExpr) and w.value is n:
+                            bound = w.target.id
+                    default = "none"
+                    for gi in ast.walk(fn):
+                        if isinstance(gi, ast.If) and bound and norm(gi.test) in (f"{bound} is None", f"({bound} := {norm(n)}) is None") and classify_body(gi.body) == "raise":
+                            default = "raise"
         if tbl is not None and isinstance(mod.assigns.get(tbl), ast.Dict):
             d = mod.assigns[tbl]
             return {norm(k).split(".")[-1]: norm(v) for k, v in zip(d.keys, d.values)}, default, n
